@@ -264,9 +264,11 @@ package light
 // API level: a block returned without error is a reached block.
 //@ func Client.VerifyLightBlockAtHeight
 //@   maintains latest: c.latestTrustedBlock != nil && clientOK(c)
+//@   assigns c.latestTrustedBlock, c.primary, c.witnesses, elems(provider.Provider), c.providerMutex, reports, all(types.ValidatorSet.totalVotingPower)
 //@   ensures reached: result1 == nil ==> (lbOK(result0) && reach(types.Header.Hash(result0.SignedHeader.Header)))
 //@   ensures asked: result1 == nil ==> result0.SignedHeader.Header.Height == height
 
 //@ func Client.VerifyHeader
 //@   maintains latest: c.latestTrustedBlock != nil && clientOK(c)
+//@   assigns c.latestTrustedBlock, c.primary, c.witnesses, elems(provider.Provider), c.providerMutex, reports, all(types.ValidatorSet.totalVotingPower)
 //@   ensures reached: result == nil ==> reach(types.Header.Hash(newHeader))
